@@ -180,7 +180,7 @@ def one(rec, hub, seed, tier, i, tmpdir):
             got, exc = None, None
             try:
                 if route == "from_df":
-                    got = fd.FlodymArray.from_df(dims=dims, df=df.copy(), allow_missing_values=am, allow_extra_values=ae)
+                    got = fd.FlodymArray.from_df(dims=dims, df=df.copy(), allow_missing_values=am, allow_extra_values=ae) if i % 3 else fd.FlodymArray.from_df(dims, df.copy(), am, ae)
                 elif route == "set_values_from_df":
                     tk = (i // 6) % 4
                     if tk == 0:
@@ -192,12 +192,14 @@ def one(rec, hub, seed, tier, i, tmpdir):
                     else:
                         target = fd.FlodymArray(dims=dims, values=np.full(dims.shape, 1.5, dtype=np.float32))
                     pre = Snap(target)
-                    target.set_values_from_df(df.copy(), allow_missing_values=am, allow_extra_values=ae)
+                    target.set_values_from_df(df.copy(), allow_missing_values=am, allow_extra_values=ae) if i % 4 else target.set_values_from_df(df.copy(), am, ae)
                     got = target
                 elif route == "csv":
                     path = os.path.join(tmpdir, f"p{i}.csv")
                     df.to_csv(path, index=False)
                     reader = fd.CSVParameterReader(parameter_files={"par": path}, allow_missing_values=am, allow_extra_values=ae)
+                    if i % 2:
+                        fd.CSVParameterReader(parameter_files={"par": path}, allow_missing_values=not am, allow_extra_values=not ae)  # another reader, other flags, alive at the same time
                     got = reader.read_parameter_values("par", dims)
                 elif route == "from_csv":
                     # the whole assembly path: definition + dimension files + one parameter file, flags forwarded by from_csv
@@ -217,6 +219,8 @@ def one(rec, hub, seed, tier, i, tmpdir):
                     path = os.path.join(tmpdir, f"p{i}.xlsx")
                     df.to_excel(path, index=False, sheet_name="data")
                     reader = fd.ExcelParameterReader(parameter_files={"par": path}, parameter_sheets={"par": "data"}, allow_missing_values=am, allow_extra_values=ae)
+                    if i % 2:
+                        fd.ExcelParameterReader(parameter_files={"par": path}, parameter_sheets={"par": "data"}, allow_missing_values=not am, allow_extra_values=not ae)  # another reader, other flags
                     got = reader.read_parameter_values("par", dims)
             except Exception as e:
                 exc = e
